@@ -32,23 +32,25 @@ from hypothesis import strategies as st
 ID = "C20"
 SHARDS = {"quick": 16, "thorough": 16}
 RULE = ("exhaustive: every partial function dst->src over N integer registers (each register is not a "
-        "destination, or receives one of the N registers or `zero`; optionally `zero` itself is a "
-        "destination) and over M float registers (quick: int-only N<=3, float-only M<=3, mixed N=3 x "
-        "M=2; thorough: int-only N<=5, float-only M<=4, mixed N=4 x M=2 and N=3 x M=3), x every subset of "
-        "the non-involved registers of the universe plus one outside register as declared "
-        "free_registers, x every 32/64 width assignment per float source register (int widths cycle "
-        "through all-32/all-64/alternating), x operand orders (labelled enumeration already covers "
-        "all orders of one kind; mixed cases use ints-first, floats-first, interleaved), x shared / "
-        "per-operand SSA values on fan-out; plus Hypothesis random graphs over up to 10 registers of "
-        "each kind with random order, free sets, widths (rarely unsupported ones) and several `zero` "
-        "destinations. Oracle: the emitted riscv.mv / fmv.s / fmv.d / xor ops are executed in block order "
-        "on a symbolic register file; afterwards every destination (except `zero`) must hold the "
-        "initial value of its source in the lanes covered by the declared width, every register that is "
-        "neither a destination nor a declared free register must hold its initial value, and the "
+        "destination, or receives one of the N registers or `zero`; optionally `zero` itself is one more "
+        "destination) and over M float registers -- quick: int-only N<=4, float-only M<=4, mixed N=3 x "
+        "M=2; thorough adds int-only N=5, mixed N=4 x M=2 and N=3 x M=3 -- x every subset of the "
+        "non-involved registers of the universe plus one outside register as declared free_registers, "
+        "x every 32/64 width assignment per float source register (int widths cycle through "
+        "all-32/all-64/alternating), x operand orders (labelled enumeration already covers all orders "
+        "within one kind; identity and reversed are run; mixed cases use ints-first, floats-first, "
+        "interleaved), x shared / per-operand SSA values on fan-out; plus Hypothesis random graphs over "
+        "up to 10 registers of each kind with random order, free sets, widths (rarely one unsupported "
+        "width) and up to two `zero` destinations. Oracle: the emitted riscv.mv / fmv.s / fmv.d / xor ops "
+        "are executed in block order on a symbolic register file (two 32-bit lanes per register, GF(2) "
+        "combinations of the initial symbols); afterwards every destination (except `zero`) must hold "
+        "the initial value of its source in the lanes covered by the declared width, every register that "
+        "is neither a destination nor a declared free register must hold its initial value, and the "
         "replacement values must have the destination register types; PassFailedException / "
-        "DiagnosticException = reported failure (discarded, counted); any other exception, a leftover "
-        "parallel_mov or an unknown emitted op is reported. Non-trivial: the graph of one kind has a "
-        "cycle of length >=2, a tree hanging off a cycle, or fan-out >= 2.")
+        "DiagnosticException = reported failure (discarded, counted by cause); any other exception, a "
+        "rewrite that burns more than 2 s of CPU, a leftover parallel_mov is a mismatch; an unknown "
+        "emitted op kind is a harness error. Non-trivial: the graph of one kind has a cycle of length "
+        ">=2, a tree hanging off a cycle, or fan-out >= 2.")
 ASSUMPTIONS = [
     "register-file semantics: mv/fmv.d copy the whole register, fmv.s copies the low 32 bits, xor is "
     "bitwise, x0 reads zero and ignores writes; ops execute in block order",
@@ -168,7 +170,37 @@ def nontrivial(fi, ff):
 
 # ----------------------------------------------------------------------------------------------
 # build + run + simulate
+def validate(recipe):
+    """The generator's invariants; a recipe outside them (hand-written or produced by the shrinker)
+    is refused with an AssertionError instead of being judged."""
+    for key, pool, extra in (("moves", INT_POOL, INT_EXTRA), ("fmoves", FLT_POOL, FLT_EXTRA)):
+        fkey = "free" if key == "moves" else "ffree"
+        names = set(pool) | {extra} | ({"zero"} if key == "moves" else set())
+        dsts = [d for d, _ in recipe[key]]
+        real = [d for d in dsts if d != "zero"]
+        if len(real) != len(set(real)):
+            raise AssertionError("recipe: destinations not distinct")
+        involved = {x for m in recipe[key] for x in m}
+        free = list(recipe[fkey])
+        if not (involved | set(free)) <= names:
+            raise AssertionError("recipe: unknown register name")
+        if len(free) != len(set(free)) or set(free) & involved or "zero" in free:
+            raise AssertionError("recipe: free registers must be distinct, non-zero and not involved")
+    mv = [("i", s) for _, s in recipe["moves"]] + [("f", s) for _, s in recipe["fmoves"]]
+    if len(recipe["widths"]) != len(mv):
+        raise AssertionError("recipe: widths length")
+    wmap = {}
+    for src, w in zip(mv, recipe["widths"]):
+        if not isinstance(w, int) or isinstance(w, bool) or w < 0:
+            raise AssertionError("recipe: width")
+        if wmap.setdefault(src, w) != w:
+            raise AssertionError("recipe: one source register with two widths")
+    if not mv:
+        raise AssertionError("recipe: no move")
+
+
 def all_moves(recipe):
+    validate(recipe)
     mv = [("i", d, s) for d, s in recipe["moves"]] + [("f", d, s) for d, s in recipe["fmoves"]]
     ws = list(recipe["widths"])
     if len(ws) != len(mv):
@@ -181,12 +213,19 @@ def all_moves(recipe):
     return [mv[i] + (ws[i],) for i in perm]
 
 
+_TYPES: dict = {}
+
+
 def build(recipe):
     from xdsl.dialects import riscv, test
     from xdsl.dialects.builtin import ArrayAttr, DenseArrayBase, ModuleOp, i32
 
     def ty(kind, name):
-        return (riscv.IntRegisterType if kind == "i" else riscv.FloatRegisterType).from_name(name)
+        t = _TYPES.get((kind, name))
+        if t is None:
+            t = (riscv.IntRegisterType if kind == "i" else riscv.FloatRegisterType).from_name(name)
+            _TYPES[(kind, name)] = t
+        return t
 
     ops = all_moves(recipe)
     if recipe.get("split"):
@@ -553,7 +592,6 @@ def checks(h):
         enum_block(h, counter, "enum_int5", int_cases(5, True), no_f, ["if"])
         enum_block(h, counter, "enum_int4_float2", int_cases(4, False), float_cases(2), mixed)
         enum_block(h, counter, "enum_int3_float3", int_cases(3, False), float_cases(3), mixed)
-        enum_block(h, counter, "enum_int4_float3", int_cases(4, False), float_cases(3), ["alt"])
     h.exhaustive = True
 
     h.hyp("random_graph", random_recipes(10), lambda r: run_one(h, r, "random"),
